@@ -626,6 +626,10 @@ func (ab *rulesPair) adaptGroups(lb []string) {
 			} else {
 				// Name may have been changed before, to prevent name clashes.
 				lb[i] = gb.Name
+				// Group will be transferred with this name.
+				// It must not be equalized with some other group
+				// of device later, because this name is already in use.
+				gb.nameOnDevice = gb.Name
 			}
 		}
 	}
